@@ -70,6 +70,9 @@ var c16FixedZones = []c16Zone{
 	{Kind: "fixed", Name: "LMT", Offset: -(4*3600 + 56*60 + 2)}, // -04:56:02 (seconds offset)
 	{Kind: "fixed", Name: "X", Offset: -1},                      // one second west
 	{Kind: "fixed", Name: "IST", Offset: 5*3600 + 30*60},        // +05:30
+	{Kind: "fixed", Name: "W30", Offset: -30 * 60},              // -00:30 (west of Greenwich by less than an hour)
+	{Kind: "fixed", Name: "LMT", Offset: -(36*60 + 45)},         // -00:36:45 (Lisbon mean time)
+	{Kind: "fixed", Name: "E30", Offset: 30 * 60},               // +00:30
 }
 var c16NamedZones = []string{"America/New_York", "Asia/Kathmandu", "Europe/Amsterdam", "Australia/Lord_Howe", "Pacific/Apia", "America/St_Johns"}
 
